@@ -427,7 +427,7 @@ def worker(case: Dict[str, Any]) -> CaseResult:
         if case["idx"] % 3 == 0:
             # something was generated in this interpreter before: the same inputs with nothing configured
             from ..genpkg import DECOY_KINDS, decoy_generations
-            stats["decoy_generations_before"] = decoy_generations(root, sdl, None, config={"enable_custom_operations": True}, kind=DECOY_KINDS[(case["idx"] // 3) % 4])
+            stats["decoy_generations_before"] = decoy_generations(root, sdl, None, config={"enable_custom_operations": True}, kind=DECOY_KINDS[(case["idx"] // 3) % len(DECOY_KINDS)])
         with warnings.catch_warnings():
             warnings.simplefilter("ignore")
             gen = run_cli(root, "client", cfg)
